@@ -178,7 +178,7 @@ func (k Keeper) RefundEarnedFees(ctx sdk.Context) error {
 	defer iterator.Close()
 
 	for ; iterator.Valid(); iterator.Next() {
-		provider := iterator.Key()[1:]
+		provider := sdk.AccAddress(iterator.Key()[1 : 1+sdk.AddrLen])
 
 		var earnedFee sdk.Coin
 		k.cdc.MustUnmarshalBinaryBare(iterator.Value(), &earnedFee)
